@@ -318,6 +318,12 @@ static inline void bg_vec_list_u__ctor(bg_adj *a) {
 }
 
 static inline bg_size bg_vec_list_u__size(const bg_adj *a) { return a->n; }
+/* vector<list>(n, empty list) */
+static inline void bg_vec_list_u__ctor_2(bg_adj *a, bg_size n, const bg_list *v) {
+  __CPROVER_assert(v->c.len == 0, "ABSTRACTION vector<list>(n, value) with a non-empty value");
+  bg_vec_list_u__ctor(a);
+  a->n = n;
+}
 
 /* ghost frontier (DESIGN §4.3): below == sum of len over rows with index < F
    of vector a.  Started/advanced by ghost statements of the spec files; kept
@@ -972,6 +978,7 @@ static inline void bg_queue_u__pop(bg_queue_u *q) {
   q->popped++;
 }
 static inline void bg_preds__ctor_2(bg_preds *p, const bg_vec_sz *a, const bg_vec_u *b) { p->first = *a; p->second = *b; }
+static inline void bg_mpreds__ctor_2(bg_mpreds *p, const bg_vec_sz *a, const bg_adj *b) { p->first = *a; p->second = *b; }
 
 /* --------------------------------------------- std::unordered_set<VertexIndex> (read-only use) */
 /* the element under the cursor: any of the classes still ahead */
